@@ -112,6 +112,7 @@ func (ex *Exec) appendOp(st *State, i *ssa.Call) []*State {
 	if fits != False {
 		a := st.clone()
 		a.assume(fits)
+		a.branches = append(a.branches, fits)
 		if !a.dead {
 			ex.frameCheckRegion(a, sv.Reg, i.Pos())
 			old := a.loadArr(ex, sv.Reg)
@@ -140,6 +141,7 @@ func (ex *Exec) appendOp(st *State, i *ssa.Call) []*State {
 	if fits != True {
 		b := st
 		b.assume(Not(fits))
+		b.branches = append(b.branches, Not(fits))
 		if !b.dead {
 			r := newRegion("grown", es, "fresh")
 			old := b.loadArr(ex, sv.Reg)
@@ -194,8 +196,22 @@ func (ex *Exec) invoke(st *State, i *ssa.Call) []*State {
 	}
 	switch name {
 	case "HandleArrayValue", "HandleObjectValue":
-		pp := ex.fresh("h.p", BV(64))
-		herr := ex.fresh("h.err", ErrSort)
+		// handler results: named by call site and ordinal on the path, so that two runs compared by
+		// the relational driver see the same handler (deterministic in call index and arguments)
+		nInv := 0
+		for _, ev := range st.events {
+			if ev.Kind == "invoke" {
+				nInv++
+			}
+		}
+		var pp, herr *Term
+		if ex.relMode {
+			pp = Var(fmt.Sprintf("h.p@%s#%d", ex.siteName(i.Pos(), name), nInv), BV(64))
+			herr = Var(fmt.Sprintf("h.err@%s#%d", ex.siteName(i.Pos(), name), nInv), ErrSort)
+		} else {
+			pp = ex.fresh("h.p", BV(64))
+			herr = ex.fresh("h.err", ErrSort)
+		}
 		ev := &Event{Kind: "invoke", Site: ex.siteName(i.Pos(), name), Args: args, Res: []Value{pp, herr}, NPC: len(st.pc), Pos: i.Pos(),
 			Info: map[string]*Term{"p": pp, "err": herr}}
 		st.events = append(st.events, ev)
@@ -347,6 +363,14 @@ func (ex *Exec) applyContract(st *State, i *ssa.Call, f *ssa.Function, fc *FuncC
 			name = fc.Results[j]
 		}
 		rv := ex.freshValue(st, f.Name()+"."+name, rs.At(j).Type(), "fresh")
+		if ex.relMode {
+			// relational proofs: a callee under contract is a deterministic function of its arguments
+			if so := sortOf(rs.At(j).Type()); so != nil {
+				if fa, ok := flattenArgs(ex, st, args); ok {
+					rv = App("det."+f.Name()+"."+name, so, fa...)
+				}
+			}
+		}
 		results = append(results, rv)
 		resVars[name] = TV{V: rv, Signed: isSigned(rs.At(j).Type())}
 	}
@@ -469,4 +493,24 @@ func (ex *Exec) clauseActive(c *Clause) bool {
 	default:
 		return c.Mode == ex.mode
 	}
+}
+
+// flattenArgs: scalar arguments and (array, offset, length) of input slices; ok=false when an
+// argument is something else (then no determinism is assumed for the call).
+func flattenArgs(ex *Exec, st *State, args []Value) ([]*Term, bool) {
+	var out []*Term
+	for _, a := range args {
+		switch v := a.(type) {
+		case *Term:
+			out = append(out, v)
+		case *SliceV:
+			if !v.Reg.Input {
+				return nil, false
+			}
+			out = append(out, st.loadArr(ex, v.Reg), v.Off, v.Len)
+		default:
+			return nil, false
+		}
+	}
+	return out, true
 }
